@@ -1,24 +1,74 @@
 (* Model of the message layer of pkg/ha/sync.go (+ store.go, protocol.go): an active HASyncer, a
    standby HASyncer, and the link between them.
 
-   Sessions are (id, value) with the value standing for the session's payload; tables are lists
-   indexed by id ([None] = absent; beyond the end = absent).  The active's pendingChanges channel
-   (capacity [c_pcap]) and the standby's SSE client channel on the active ([c_ccap] = channel
-   capacity + the one message the stream handler holds while its write is blocked) are FIFO lists
-   with the code's drop-on-full behaviour.  The standby's standbyLoop sequencing (full sync, then
-   stream attach, until disconnect) is the link state.
+   A session is (id, record): the id stands for SessionState.SessionID (the key of the store and of
+   the received map), the record [rec] carries EVERY other field of ha.SessionState, one value per
+   entry of the generated list [HaSyncFields.fields] (struct order; 0 = the field's Go zero value).
+   The active serialises a record with encoding/json ([enc]: a field tagged omitempty is left out
+   when it holds its zero value — except time.Time, for which omitempty has no effect; a field
+   tagged "-" is never written) and the standby decodes it into a FRESH SessionState ([dec_into zero]:
+   a field absent from the JSON object keeps the value of the struct decoded into, here zero).
+   Tables are lists indexed by id ([None] = absent; beyond the end = absent).
+
+   The active's pendingChanges channel (capacity [c_pcap]) and the standby's SSE client channel on the
+   active ([c_ccap] = channel capacity + the one message the stream handler holds while its write is
+   blocked) are FIFO lists of in-memory messages with the code's drop-on-full behaviour; the JSON
+   round trip happens when a message leaves the client channel (sendSSE / handleSSEData) and when a
+   snapshot is served (handleGetSessions / performFullSync).  The standby's standbyLoop sequencing
+   (full sync, then stream attach, until disconnect) is the link state.
 
    Ghost markers:
      1302  a queued change is broadcast to nobody between a completed full sync and the stream
            attach (it is in neither the snapshot nor the stream)
-     1303  a change is dropped because the client channel / the pending queue is full *)
+     1303  a change is dropped because the client channel is full
+     1304  a change is refused because the pending queue is full *)
 From Coq Require Import NArith List Bool.
+From Verif Require Import Model.HaSyncFields.
 Import ListNotations.
 Local Open Scope N_scope.
 
+(* ---- the session record and its JSON round trip ---- *)
+Definition rec := list N.
+Definition nf : nat := length fields.
+
+(* a SessionState has exactly the fields of the struct: a shorter list is read as padded with zero
+   values, a longer one as cut (only totalises the op type; the drivers always give [nf] values) *)
+Fixpoint norm_n (n : nat) (r : rec) : rec :=
+  match n with O => [] | S k => hd 0 r :: norm_n k (tl r) end.
+Definition norm (r : rec) : rec := norm_n nf r.
+
+Definition is_time (k : fkind) : bool := match k with KTime => true | _ => false end.
+(* omitempty drops "false, 0, a nil pointer, a nil interface value, and any empty array, slice, map,
+   or string": never a struct such as time.Time *)
+Definition omits (f : fspec) : bool := f_omit f && negb (is_time (f_kind f)).
+
+(* json.Marshal of a SessionState: per field, in struct order, the value written or None *)
+Fixpoint enc (fs : list fspec) (r : rec) : list (option N) :=
+  match fs with
+  | [] => []
+  | f :: fs' =>
+      let v := hd 0 r in
+      (if negb (f_ser f) then None else if omits f && (v =? 0) then None else Some v)
+      :: enc fs' (tl r)
+  end.
+(* json.Unmarshal into an existing struct value: a field absent from the object is left alone *)
+Fixpoint dec_into (base : rec) (w : list (option N)) : rec :=
+  match w with
+  | [] => []
+  | o :: w' => (match o with Some v => v | None => hd 0 base end) :: dec_into (tl base) w'
+  end.
+Definition zero_rec : rec := repeat 0 nf.
+(* what the standby holds after decoding what the active encoded: DecodeSyncMessage and
+   json.NewDecoder(...).Decode(&msg) both decode into a fresh (zero) SyncMessage *)
+Definition wire (r : rec) : rec := dec_into zero_rec (enc fields r).
+
 Inductive link := LDown | LSynced | LStreaming.
-Inductive msg := MPut (id v sq : N) | MDel (id sq : N) | MHb.
-Definition table := list (option N).
+(* add/update (upd = the message type is "update"), delete, heartbeat; sq = SequenceNum *)
+Inductive msg := MPut (id : N) (upd : bool) (r : rec) (sq : N) | MDel (id sq : N) | MHb (sq : N).
+Definition table := list (option rec).
+
+Definition wire_msg (m : msg) : msg :=
+  match m with MPut id u r sq => MPut id u (wire r) sq | _ => m end.
 
 Record config := { c_pcap : N; c_ccap : N }.
 
@@ -34,22 +84,26 @@ Record state := mkS {
 
 Definition init : state := mkS [] [] [] 0 [] [] LDown.
 
-Fixpoint tset (t : table) (i : nat) (x : option N) : table :=
+Fixpoint tset (t : table) (i : nat) (x : option rec) : table :=
   match t, i with
   | [], O => [x]
   | [], S j => None :: tset [] j x
   | _ :: tl, O => x :: tl
   | y :: tl, S j => y :: tset tl j x
   end.
-Definition lookup (t : table) (id : N) : option N := nth (N.to_nat id) t None.
+Definition lookup (t : table) (id : N) : option rec := nth (N.to_nat id) t None.
 
-(* handleSSEData on the standby's store / received map *)
+(* handleSSEData on the standby's store / received map, for a DECODED message: the decoded session
+   replaces whatever was stored under its id (add and update alike) *)
 Definition apply_msg (m : msg) (t : table) : table :=
   match m with
-  | MPut id v _ => tset t (N.to_nat id) (Some v)
+  | MPut id _ r _ => tset t (N.to_nat id) (Some r)
   | MDel id _ => tset t (N.to_nat id) None
-  | MHb => t
+  | MHb _ => t
   end.
+
+(* handleGetSessions: the snapshot of the active's store as the standby decodes it *)
+Definition snapshot (a : table) : table := map (option_map wire) a.
 
 (* performFullSync on the standby's store: every snapshot session is Put; every stored session the
    snapshot lacks is Deleted (fix 13a; before it the second case kept the old entry) *)
@@ -60,14 +114,18 @@ Fixpoint fsync (snap old : table) : table :=
   end.
 
 Inductive op :=
-| Put (id v : N)        (* session manager: store.PutSession + PushChange(add/update) *)
+| Put (id : N) (r : rec) (* session manager: store.PutSession + PushChange(add/update) *)
 | Del (id : N)          (* store.DeleteSession + PushChange(delete) *)
 | Broadcast             (* broadcastLoop: one pending change to broadcastToClients *)
 | Heartbeat             (* broadcastLoop: heartbeat tick *)
 | FullSync              (* standby: performFullSync (GET snapshot, apply) *)
+| SyncFail              (* standby: performFullSync fails (refused, cut while the body is in
+                           flight, undecodable): nothing is applied, standbyLoop starts over *)
 | Attach                (* standby: connectToStream succeeded (after a full sync) *)
 | Deliver               (* the oldest message in the stream reaches handleSSEData *)
-| Disconnect.
+| Disconnect
+| Restart.              (* the active process restarts: empty store, sequence numbers from 0,
+                           queues gone, the stream (if any) is closed *)
 
 Inductive bres := BQueued | BDropped | BNoClient.
 Inductive res :=
@@ -87,7 +145,7 @@ Definition len {A} (l : list A) : N := N.of_nat (length l).
 Definition push (c : config) (s : state) (a : table) (m : msg) : state * res * list N :=
   if len (pend s) <? c_pcap c
   then (mkS a (sby s) (rcv s) (sqn s + 1) (pend s ++ [m]) (cq s) (lnk s), RPush m true, [])
-  else (mkS a (sby s) (rcv s) (sqn s + 1) (pend s) (cq s) (lnk s), RPush m false, [1303]).
+  else (mkS a (sby s) (rcv s) (sqn s + 1) (pend s) (cq s) (lnk s), RPush m false, [1304]).
 
 (* broadcastToClients for one message *)
 Definition bcast (c : config) (s : state) (p : list msg) (m : msg) (change : bool) : state * res * list N :=
@@ -103,20 +161,30 @@ Definition bcast (c : config) (s : state) (p : list msg) (m : msg) (change : boo
   | LDown => (mkS (act s) (sby s) (rcv s) (sqn s) p (cq s) (lnk s), RBcast m BNoClient, [])
   end.
 
+Definition isSome {A} (x : option A) : bool := match x with Some _ => true | None => false end.
+
 Definition step_core (c : config) (s : state) (o : op) : state * res * list N :=
   match o with
-  | Put id v => push c s (tset (act s) (N.to_nat id) (Some v)) (MPut id v (sqn s + 1))
+  | Put id r =>
+      let r' := norm r in
+      push c s (tset (act s) (N.to_nat id) (Some r')) (MPut id (isSome (lookup (act s) id)) r' (sqn s + 1))
   | Del id => push c s (tset (act s) (N.to_nat id) None) (MDel id (sqn s + 1))
   | Broadcast =>
       match pend s with
       | [] => (s, RSkip, [])
       | m :: tl => bcast c s tl m true
       end
-  | Heartbeat => bcast c s (pend s) MHb false
+  | Heartbeat => bcast c s (pend s) (MHb (sqn s)) false
   | FullSync =>
       match lnk s with
       | LStreaming => (s, RSkip, [])
-      | _ => (mkS (act s) (fsync (act s) (sby s)) (act s) (sqn s) (pend s) (cq s) LSynced, RSync true, [])
+      | _ => let snap := snapshot (act s) in
+             (mkS (act s) (fsync snap (sby s)) snap (sqn s) (pend s) (cq s) LSynced, RSync true, [])
+      end
+  | SyncFail =>
+      match lnk s with
+      | LStreaming => (s, RSkip, [])
+      | _ => (mkS (act s) (sby s) (rcv s) (sqn s) (pend s) (cq s) LDown, RSync false, [])
       end
   | Attach =>
       match lnk s with
@@ -126,7 +194,8 @@ Definition step_core (c : config) (s : state) (o : op) : state * res * list N :=
   | Deliver =>
       match lnk s, cq s with
       | LStreaming, m :: tl =>
-          (mkS (act s) (apply_msg m (sby s)) (apply_msg m (rcv s)) (sqn s) (pend s) tl (lnk s), RDeliver m, [])
+          let m' := wire_msg m in
+          (mkS (act s) (apply_msg m' (sby s)) (apply_msg m' (rcv s)) (sqn s) (pend s) tl (lnk s), RDeliver m', [])
       | _, _ => (s, RSkip, [])
       end
   | Disconnect =>
@@ -134,6 +203,7 @@ Definition step_core (c : config) (s : state) (o : op) : state * res * list N :=
       | LDown => (s, RSkip, [])
       | _ => (mkS (act s) (sby s) (rcv s) (sqn s) (pend s) [] LDown, RNone, [])
       end
+  | Restart => (mkS [] (sby s) (rcv s) 0 [] [] LDown, RNone, [])
   end.
 
 Definition observe (s : state) (r : res) : out :=
@@ -145,10 +215,17 @@ Definition step (c : config) (s : state) (o : op) : state * out * list N :=
 Definition run (c : config) (s : state) (ops : list op) : state :=
   fold_left (fun s o => fst (fst (step c s o))) ops s.
 
-(* ---- equality on observations; tables are compared as maps (trailing absents ignored) ---- *)
-Definition oeqb (a b : option N) : bool :=
-  match a, b with None, None => true | Some x, Some y => x =? y | _, _ => false end.
-Definition isnone (x : option N) : bool := match x with None => true | Some _ => false end.
+(* ---- equality on observations; tables are compared as maps (trailing absents ignored), records
+   field by field ---- *)
+Fixpoint req (a b : rec) : bool :=
+  match a, b with
+  | [], [] => true
+  | x :: a', y :: b' => (x =? y) && req a' b'
+  | _, _ => false
+  end.
+Definition oeqb (a b : option rec) : bool :=
+  match a, b with None, None => true | Some x, Some y => req x y | _, _ => false end.
+Definition isnone (x : option rec) : bool := match x with None => true | Some _ => false end.
 Fixpoint teqb (a b : table) : bool :=
   match a, b with
   | [], _ => forallb isnone b
@@ -157,9 +234,9 @@ Fixpoint teqb (a b : table) : bool :=
   end.
 Definition msg_eqb (a b : msg) : bool :=
   match a, b with
-  | MPut i v s, MPut i' v' s' => (i =? i') && (v =? v') && (s =? s')
+  | MPut i u v s, MPut i' u' v' s' => (i =? i') && Bool.eqb u u' && req v v' && (s =? s')
   | MDel i s, MDel i' s' => (i =? i') && (s =? s')
-  | MHb, MHb => true
+  | MHb s, MHb s' => s =? s'
   | _, _ => false
   end.
 Definition link_eqb (a b : link) : bool :=
